@@ -253,6 +253,9 @@ func TestWorker(t *testing.T) {
 		// wall-clock watchdog (a real timer: this goroutine is outside every
 		// bubble): a run that makes no progress for this long is a busy loop
 		// inside the library, which fake time cannot see
+		if raceEnabled {
+			watchdogAfter = 3 * time.Duration(envInt("VERIF_WATCHDOG_S", 25)) * time.Second
+		}
 		wd := time.AfterFunc(watchdogAfter, func() {
 			fmt.Fprintf(os.Stderr, "\nWATCHDOG: run %d exceeded %s of wall-clock time\n", run, watchdogAfter)
 			buf := make([]byte, 1<<20)
@@ -262,9 +265,11 @@ func TestWorker(t *testing.T) {
 			}
 			os.Exit(3)
 		})
+		wdReset = func() { wd.Reset(watchdogAfter) }
 		tp := NewTape(base, run)
 		rr := p.Run(tp, st, tier)
 		wd.Stop()
+		wdReset = nil
 		st.Runs++
 		sum.LastRun = run
 		if errs := takeSelfCheckErrs(); len(errs) > 0 && rr.Harness == "" {
